@@ -23,8 +23,9 @@ CONSTANTS Cfgs
 Multi == 99
 Max2(a, b) == IF a > b THEN a ELSE b
 
-VARIABLES cfg, pc, todo, visited, flags, per, res
-vars == <<cfg, pc, todo, visited, flags, per, res>>
+VARIABLES cfg, pc, todo, visited, flags, per, res,
+          sums    \* history: the summary each visit produced
+vars == <<cfg, pc, todo, visited, flags, per, res, sums>>
 
 (* cfg: [L, lags, leads, start, end, min, max, errors, failures, fault]    *)
 (* fault: function 1..L -> {"none","nan","div","exc"}                      *)
@@ -33,7 +34,7 @@ Untouched == [st |-> "-", it |-> -1, ver |-> "init"]
 Running   == [kind |-> "running", at |-> 0]
 
 InitWith(c) == /\ cfg = c /\ pc = "minmax" /\ todo = <<>> /\ visited = <<>> /\ flags = <<>>
-               /\ per = [p \in 1..c.L |-> Untouched] /\ res = Running
+               /\ per = [p \in 1..c.L |-> Untouched] /\ res = Running /\ sums = <<>>
 Init == \E c \in Cfgs : InitWith(c)
 
 Finish(kind, at) == pc' = "done" /\ res' = [kind |-> kind, at |-> at]
@@ -45,7 +46,7 @@ Pos(label) == IF label \in 1..cfg.L THEN label ELSE IF label = Multi THEN -2 ELS
 CheckMinMax ==
   /\ pc = "minmax"
   /\ IF cfg.min > cfg.max THEN Finish("ValueError", 0) ELSE pc' = "labels" /\ UNCHANGED res
-  /\ UNCHANGED <<cfg, todo, visited, flags, per>>
+  /\ UNCHANGED <<cfg, todo, visited, flags, per, sums>>
 
 (* interfaces.py:420-428: invalid start / end are caught before anything is solved *)
 CheckLabels ==
@@ -53,7 +54,7 @@ CheckLabels ==
   /\ IF cfg.start # 0 /\ Pos(cfg.start) < 0 THEN Finish("KeyError", 0)
      ELSE IF cfg.end # 0 /\ Pos(cfg.end) < 0 THEN Finish("KeyError", 0)
      ELSE pc' = "iter" /\ UNCHANGED res
-  /\ UNCHANGED <<cfg, todo, visited, flags, per>>
+  /\ UNCHANGED <<cfg, todo, visited, flags, per, sums>>
 
 (* interfaces.py:309-323 *)
 IterPeriods ==
@@ -63,7 +64,7 @@ IterPeriods ==
               e == IF cfg.end = 0 THEN cfg.L - cfg.leads ELSE Pos(cfg.end)
           IN  /\ todo' = [i \in 1..Max2(0, e - s + 1) |-> s + i - 1]
               /\ pc' = "loop" /\ UNCHANGED res
-  /\ UNCHANGED <<cfg, visited, flags, per>>
+  /\ UNCHANGED <<cfg, visited, flags, per, sums>>
 
 (* what one solve_t call leaves behind, from Solver.tla's terminal summaries *)
 ConvIt == Max2(2, cfg.min)      \* the scripted "none" period settles on its second pass
@@ -80,14 +81,13 @@ Summary(p) ==
     [] f = "exc"  -> IF cfg.errors = "raise" THEN [st |-> "E", it |-> 1, ret |-> "SolutionError"]
                      ELSE [st |-> "-", it |-> -1, ret |-> "SolutionError"]
 
-Raises(s) == s.ret \in {"SolutionError", "NonConvergenceError", "IndexError"}
+Raises(s) == s.ret \notin {"True", "False"}
 
-(* interfaces.py:438-451: one iteration of the loop = one solve_t call *)
-Visit ==
+(* interfaces.py:438-451: one iteration of the loop = one solve_t call that ends as summary s *)
+Visit(s) ==
   /\ pc = "loop" /\ todo # <<>>
   /\ LET p == Head(todo)
-         s == Summary(p)
-     IN  /\ visited' = Append(visited, p)
+     IN  /\ visited' = Append(visited, p) /\ sums' = Append(sums, s)
          /\ per' = [per EXCEPT ![p] = [st |-> s.st, it |-> s.it,
                                        ver |-> IF s.st = "." THEN "done" ELSE IF s.st = "-" THEN "init" ELSE "partial"]]
          /\ IF Raises(s)
@@ -95,13 +95,14 @@ Visit ==
               ELSE /\ flags' = Append(flags, s.ret = "True") /\ todo' = Tail(todo)
                    /\ UNCHANGED <<pc, res>>
   /\ UNCHANGED cfg
+DoVisit == pc = "loop" /\ todo # <<>> /\ Visit(Summary(Head(todo)))
 
 Return ==
   /\ pc = "loop" /\ todo = <<>>
   /\ Finish("returned", 0)
-  /\ UNCHANGED <<cfg, todo, visited, flags, per>>
+  /\ UNCHANGED <<cfg, todo, visited, flags, per, sums>>
 
-Next == CheckMinMax \/ CheckLabels \/ IterPeriods \/ Visit \/ Return
+Next == CheckMinMax \/ CheckLabels \/ IterPeriods \/ DoVisit \/ Return
 Spec == Init /\ [][Next]_vars
 Done == pc = "done"
 
@@ -127,8 +128,9 @@ C05_Triple ==
 C05_Contain ==
   (Done /\ ~Early) =>
      /\ \A p \in 1..cfg.L : (\A i \in 1..Len(visited) : visited[i] # p) => per[p] = Untouched
-     /\ \A i \in 1..Len(visited) : per[visited[i]].st = Summary(visited[i]).st
-     /\ \A i \in 1..(Len(visited) - 1) : ~Raises(Summary(visited[i]))
+     /\ Len(sums) = Len(visited)
+     /\ \A i \in 1..Len(visited) : per[visited[i]].st = sums[i].st /\ per[visited[i]].it = sums[i].it
+     /\ \A i \in 1..(Len(visited) - 1) : ~Raises(sums[i])
 (* empty span / unknown or ambiguous labels / bad min-max: raised before anything is solved *)
 C05_Early ==
   (Done /\ Early) =>
@@ -141,5 +143,5 @@ C05_SkipMovesOn ==
   (Done /\ cfg.errors = "skip" /\ cfg.failures = "ignore" /\ ~Early /\ \A p \in 1..cfg.L : cfg.fault[p] # "exc"
         /\ \A i \in 1..Len(Range) : ~InfeasibleAt(Range[i])) => res.kind = "returned"
 
-TypeOK == pc \in {"minmax", "labels", "iter", "loop", "done"}
+TypeOK == pc \in {"minmax", "labels", "iter", "loop", "done", "idle"}
 =============================================================================
